@@ -34,6 +34,15 @@ def solve(formula, display=True, log=False, params={}):
     ineq_idx = np.argwhere(formula.sense == 0).flatten()
     num_ineq = len(ineq_idx)
 
+    # ECOS crashes (segmentation fault) on equality rows without coefficients, which
+    # robust counterparts do contain (0 == 0).  Such rows are taken out of the equality
+    # block: 0 == 0 is dropped, 0 == b with b != 0 is passed on as the infeasible
+    # inequality 0 <= -|b|.
+    row_nnz = np.diff(sp.csr_matrix(formula.linear).indptr)
+    empty_eq = eq_idx[row_nnz[eq_idx] == 0]
+    eq_idx = eq_idx[row_nnz[eq_idx] > 0]
+    bad_eq = empty_eq[formula.const[empty_eq] != 0]
+
     c = formula.obj
 
     Gl = formula.linear[ineq_idx]
@@ -68,13 +77,15 @@ def solve(formula, display=True, log=False, params={}):
                                 (3, cols))
         Gec.append(expcone)
 
-    G = sp.csc_matrix(sp.vstack([Gl, Glb, Gub] + Gsc + Gec))
+    Gbad = sp.csr_matrix((len(bad_eq), cols))
+    G = sp.csc_matrix(sp.vstack([Gl, Glb, Gub, Gbad] + Gsc + Gec))
     h = np.hstack((formula.const[ineq_idx],
                    -formula.lb[zlb_idx],
                    formula.ub[zub_idx],
+                   -abs(formula.const[bad_eq]),
                    np.zeros(sum(sc_dim)), np.zeros(len(xmat)*3)))
 
-    dims = {'l': num_ineq + num_zlb + num_zub,
+    dims = {'l': num_ineq + num_zlb + num_zub + len(bad_eq),
             'q': sc_dim, 'e': len(xmat)}
     if len(eq_idx) > 0:
         A = sp.csc_matrix(formula.linear[eq_idx])
@@ -95,6 +106,7 @@ def solve(formula, display=True, log=False, params={}):
         lpi = np.zeros(num_var)
 
         pi[eq_idx] = - sol['y']
+        pi[empty_eq] = 0.0
         pi[ineq_idx] = - sol['z'][:num_ineq]
         lpi[zlb_idx] = sol['z'][num_ineq + np.arange(num_zlb)]
         upi[zub_idx] = - sol['z'][num_ineq + num_zlb + np.arange(num_zub)]
